@@ -526,6 +526,29 @@ func vfC19Run(c vfC19Case, ctx *vfCtx) *vfViolation {
 	if all := AutocutResults(raw, -1); len(all) != len(raw) {
 		return vfFail("AutocutResults(cutoff=-1) dropped results: %d of %d", len(all), len(raw))
 	}
+	// the shapes the library itself feeds to autocut: monotone score sequences (with plateaus)
+	for _, dir := range []int{1, -1} {
+		sorted := make([]float32, len(scores))
+		copy(sorted, scores)
+		sort.SliceStable(sorted, func(i, j int) bool {
+			if dir > 0 {
+				return sorted[i] < sorted[j]
+			}
+			return sorted[i] > sorted[j]
+		})
+		keep := append([]float32{}, sorted...)
+		for _, cutoff := range []int{c.Cutoff, 1, 2} {
+			idx := Autocut(sorted, cutoff)
+			if idx < 0 || idx > len(sorted) {
+				return vfFail("Autocut returned index %d for %d sorted values (cutoff %d)", idx, len(sorted), cutoff)
+			}
+		}
+		for i := range sorted {
+			if math.Float32bits(sorted[i]) != math.Float32bits(keep[i]) {
+				return vfFail("Autocut modified its (sorted) input")
+			}
+		}
+	}
 
 	// ---- fusion ---------------------------------------------------------------------
 	vm0, tm0 := vfMapOf(c.VecMap), vfMapOf(c.TextMap)
